@@ -289,7 +289,9 @@ func call(car string, v reflect.Value, rules string) func() error {
 			return valid.Struct(p.Interface())
 		}
 	case "struct-tag-after-other-tag", "struct-tag-after-call-local-functions", "struct-tag-field-70", "struct-rm-after-plain-call", "map-25-entries", "url-parameter-151-of-200",
-		string(carrier.StructWrappers), string(carrier.VarWrappers), string(carrier.MapWrappers), string(carrier.UrlWrappers):
+		string(carrier.StructWrappers), string(carrier.VarWrappers), string(carrier.MapWrappers), string(carrier.UrlWrappers),
+		string(carrier.StructFirstLocalFn), string(carrier.StructFirstOverride), string(carrier.StructFirstOtherTag), string(carrier.StructFirstNested),
+		string(carrier.MapRMEdited), string(carrier.UrlRMEdited), string(carrier.StructRMEdited):
 		return func() error {
 			s, isNil := carrier.Validate(carrier.Kind(car), v, rules)
 			if isNil {
@@ -406,20 +408,21 @@ func run(c *runner.Ctx) {
 			if !c.Take() {
 				continue
 			}
-			cars := []string{"struct-rm", "struct-tagged+rm", "struct-rm-set-per-rule", "struct-rm-after-plain-call"}
+			cars := []string{"struct-rm", "struct-tagged+rm", "struct-rm-set-per-rule", "struct-rm-after-plain-call", string(carrier.StructRMEdited)}
 			switch tv.v.Kind() { // Map documents scalar values only (int, float, bool, string)
 			case reflect.Slice, reflect.Array, reflect.Map, reflect.Struct, reflect.Ptr:
 			default:
-				cars = append(cars, "map", "map-iface", "map-25-entries", string(carrier.MapWrappers))
+				cars = append(cars, "map", "map-iface", "map-25-entries", string(carrier.MapWrappers), string(carrier.MapRMEdited))
 			}
 			if carrier.TagOK(rf.rules) {
-				cars = append(cars, "struct-tag", "struct-tag-after-override", "struct-tag-after-rejected-call", "struct-tag-after-other-tag", "struct-tag-after-call-local-functions", "struct-tag-field-70", string(carrier.StructWrappers))
+				cars = append(cars, "struct-tag", "struct-tag-after-override", "struct-tag-after-rejected-call", "struct-tag-after-other-tag", "struct-tag-after-call-local-functions", "struct-tag-field-70", string(carrier.StructWrappers),
+					string(carrier.StructFirstLocalFn), string(carrier.StructFirstOverride), string(carrier.StructFirstOtherTag), string(carrier.StructFirstNested))
 			}
 			if tv.varOK {
 				cars = append(cars, "var", string(carrier.VarWrappers))
 			}
 			if tv.v.Kind() == reflect.String && tv.v.Type() == reflect.TypeOf("") {
-				cars = append(cars, "url-parameter-151-of-200", string(carrier.UrlWrappers))
+				cars = append(cars, "url-parameter-151-of-200", string(carrier.UrlWrappers), string(carrier.UrlRMEdited))
 			}
 			for _, car := range cars {
 				if strings.Contains(rf.rules, "exist") && !strings.HasPrefix(car, "struct-") {
